@@ -17,6 +17,7 @@ import (
 	"regexp"
 	"strconv"
 	"strings"
+	"time"
 
 	"seehuhn.de/go/pdf"
 
@@ -90,6 +91,8 @@ type Run struct {
 	OpenErr  string             `json:"openerr"` // error of NewReader, if any
 	Seed     int64              `json:"seed"`
 	Data     []byte             `json:"-"`
+	Meta     *metaPlan          `json:"-"`
+	MetaDiff string             `json:"-"` // first difference of the document-level round trip
 	Written  map[[2]int]Written `json:"-"`
 }
 
@@ -235,6 +238,17 @@ func chunk(r *rand.Rand, n int) []byte {
 			b[i] = byte(i)
 		}
 	}
+	if r.Intn(4) == 0 {
+		// long runs of one byte (127..300: around the run-length coder's limits)
+		for i := 0; i < n; {
+			l, v := 120+r.Intn(181), byte(r.Intn(256))
+			for k := 0; k < l && i < n; k++ {
+				b[i] = v
+				i++
+			}
+			i += r.Intn(3)
+		}
+	}
 	if n > 24 {
 		e := pick(r, bodyEdges)
 		copy(b, e)
@@ -297,12 +311,135 @@ func filterFor(name string) []pdf.Filter {
 		return []pdf.Filter{pdf.FilterASCII85{}}
 	case "ASCIIHex+Flate":
 		return []pdf.Filter{pdf.FilterASCIIHex{}, pdf.FilterFlate{}}
+	case "Flate12+ASCIIHex+ASCII85":
+		// parameters on an early filter, none on the later ones: /Filter and
+		// /DecodeParms must stay parallel
+		return []pdf.Filter{pdf.FilterFlate{Predictor: 12, Columns: 4}, pdf.FilterASCIIHex{}, pdf.FilterASCII85{}}
+	case "ASCII85+LZW0+RunLength":
+		return []pdf.Filter{pdf.FilterASCII85{}, pdf.FilterLZW{}, pdf.FilterRunLength{}}
 	case "RunLength":
 		return []pdf.Filter{pdf.FilterRunLength{}}
 	case "LZW":
 		return []pdf.Filter{pdf.FilterLZW{}}
 	}
 	return nil
+}
+
+// metaPlan is what the program puts into the document-level structures
+// (Info, Catalog, ID) before Close; it must read back unchanged.
+type metaPlan struct {
+	Info       pdf.Info
+	ID         [][]byte
+	CatVersion pdf.Version // 0: not set
+	PageLayout pdf.Name
+	PageMode   pdf.Name
+	Lang       string
+}
+
+// text strings of the three encodings a TextString can take in a file:
+// PDFDocEncoding (incl. its code points that differ from ASCII and Latin-1),
+// UTF-16BE and UTF-8
+var metaTexts = []pdf.TextString{
+	"plain ASCII", "caf\u00e9 na\u00efve", "accents \u02d8\u02c7\u02c6\u02d9\u02dd\u02db\u02da\u02dc end", "\u2013\u2014\u2022\u2122\u0141\u0152\u0160\u0178\u017d",
+	"\u0393\u03c1\u03b5\u03b5\u03ba", "\u6f22\u5b57", "astral \U0001F600", "(paren\\thesis)", "line\nbreak\ttab", "x", "\u20ac 12", "\u02d8", "a\u02dcb",
+}
+
+func newMetaPlan(r *rand.Rand, version pdf.Version) *metaPlan {
+	t := func() pdf.TextString { return metaTexts[r.Intn(len(metaTexts))] }
+	m := &metaPlan{}
+	m.Info.Title, m.Info.Author = t(), t()
+	if r.Intn(2) == 0 {
+		m.Info.Subject, m.Info.Keywords = t(), t()
+	}
+	if r.Intn(2) == 0 {
+		m.Info.Creator, m.Info.Producer = t(), t()
+	}
+	if r.Intn(2) == 0 {
+		zone := time.FixedZone("", []int{0, 3600, -5 * 3600, 5*3600 + 1800, -9*3600 - 1800}[r.Intn(5)])
+		m.Info.CreationDate = pdf.Date(time.Date(1990+r.Intn(60), time.Month(1+r.Intn(12)), 1+r.Intn(28), r.Intn(24), r.Intn(60), r.Intn(60), 0, zone))
+		m.Info.ModDate = pdf.Date(time.Date(2024, 2, 29, 23, 59, 59, 0, time.UTC))
+	}
+	if r.Intn(3) == 0 && version >= pdf.V1_3 {
+		m.Info.Trapped.Set(r.Intn(2) == 0)
+	}
+	if r.Intn(3) == 0 {
+		m.Info.Custom = map[string]string{"HarnessKey": string(t()), "Another Key": "v"}
+	}
+	switch {
+	case version == pdf.V1_0:
+		// no ID in PDF 1.0
+	case r.Intn(3) == 0 && version < pdf.V2_0:
+		m.ID = [][]byte{[]byte("short"), {0, 1, 2, 255}} // any length is allowed before PDF 2.0
+	case r.Intn(3) == 0:
+		m.ID = [][]byte{bytes.Repeat([]byte{0xa5}, 32), []byte("(unbalanced\\ string of 24")}
+	default:
+		m.ID = [][]byte{[]byte("0123456789abcdef"), []byte("fedcba9876543210")}
+	}
+	if version >= pdf.V1_4 && r.Intn(4) == 0 {
+		later := []pdf.Version{pdf.V1_5, pdf.V1_6, pdf.V1_7, pdf.V2_0}
+		if v := later[r.Intn(len(later))]; v > version {
+			m.CatVersion = v
+		}
+	}
+	if r.Intn(3) == 0 {
+		m.PageLayout = []pdf.Name{"SinglePage", "OneColumn", "TwoColumnLeft", "TwoColumnRight"}[r.Intn(4)]
+		m.PageMode = []pdf.Name{"UseNone", "UseOutlines", "UseThumbs", "FullScreen"}[r.Intn(4)]
+	}
+	return m
+}
+
+// diff compares the plan with what the Reader reports.
+func (m *metaPlan) diff(meta *pdf.MetaInfo, version pdf.Version) string {
+	want := version
+	if m.CatVersion > want {
+		want = m.CatVersion
+	}
+	switch {
+	case meta.Version != want:
+		return fmt.Sprintf("version %v, want %v", meta.Version, want)
+	case meta.Info == nil:
+		return "no Info"
+	case meta.Catalog == nil || meta.Catalog.Pages == 0:
+		return "no Catalog / Pages"
+	}
+	a, b := meta.Info, &m.Info
+	for _, f := range []struct {
+		name      string
+		got, want pdf.TextString
+	}{{"Title", a.Title, b.Title}, {"Author", a.Author, b.Author}, {"Subject", a.Subject, b.Subject}, {"Keywords", a.Keywords, b.Keywords},
+		{"Creator", a.Creator, b.Creator}, {"Producer", a.Producer, b.Producer}} {
+		if f.got != f.want {
+			return fmt.Sprintf("Info.%s %q, want %q", f.name, f.got, f.want)
+		}
+	}
+	if !a.CreationDate.Equal(b.CreationDate) || !a.ModDate.Equal(b.ModDate) {
+		return fmt.Sprintf("Info dates %v %v, want %v %v", a.CreationDate, a.ModDate, b.CreationDate, b.ModDate)
+	}
+	ga, oka := a.Trapped.Get()
+	gb, okb := b.Trapped.Get()
+	if oka != okb || ga != gb {
+		return "Info.Trapped"
+	}
+	if len(a.Custom) != len(b.Custom) {
+		return fmt.Sprintf("Info.Custom %v, want %v", a.Custom, b.Custom)
+	}
+	for k, v := range b.Custom {
+		if a.Custom[k] != v {
+			return fmt.Sprintf("Info.Custom[%q] %q, want %q", k, a.Custom[k], v)
+		}
+	}
+	if meta.Catalog.PageLayout != m.PageLayout || meta.Catalog.PageMode != m.PageMode {
+		return fmt.Sprintf("Catalog PageLayout/PageMode %q %q, want %q %q", meta.Catalog.PageLayout, meta.Catalog.PageMode, m.PageLayout, m.PageMode)
+	}
+	if len(meta.ID) != len(m.ID) {
+		return fmt.Sprintf("ID has %d parts, want %d", len(meta.ID), len(m.ID))
+	}
+	for i := range m.ID {
+		if !bytes.Equal(meta.ID[i], m.ID[i]) {
+			return fmt.Sprintf("ID[%d] %x, want %x", i, meta.ID[i], m.ID[i])
+		}
+	}
+	return ""
 }
 
 var pagesDict = pdf.Dict{"Type": pdf.Name("Pages"), "Kids": pdf.Array{}, "Count": pdf.Integer(0)}
@@ -337,6 +474,11 @@ func Execute(cfg Config, prog []Op, seed int64) (run Run, err error) {
 	user, owner := cfg.passwords()
 	opt := &pdf.WriterOptions{HumanReadable: cfg.Human, UserPassword: user, OwnerPassword: owner, UserPermissions: pdf.PermAll}
 	id := [][]byte{[]byte("0123456789abcdef"), []byte("fedcba9876543210")}
+	if !cfg.Tiny {
+		// an own source: the draws below must not depend on the plan
+		run.Meta = newMetaPlan(rand.New(rand.NewSource(seed^0x6d657461)), version)
+		id = run.Meta.ID
+	}
 	if version > pdf.V1_0 {
 		opt.ID = id
 	}
@@ -541,6 +683,13 @@ func Execute(cfg Config, prog []Op, seed int64) (run Run, err error) {
 						w.GetMeta().Info.Title = "t"
 						w.GetMeta().Info.Author = "h"
 					}
+					if m := run.Meta; m != nil {
+						info := m.Info // the plan keeps its own copy
+						*w.GetMeta().Info = info
+						w.GetMeta().Catalog.Version = m.CatVersion
+						w.GetMeta().Catalog.PageLayout = m.PageLayout
+						w.GetMeta().Catalog.PageMode = m.PageMode
+					}
 					cerr = w.Close()
 				}
 			default:
@@ -594,6 +743,10 @@ func readBack(run *Run, version pdf.Version, id [][]byte) {
 		meta.Catalog != nil && meta.Catalog.Pages != 0
 	if version > pdf.V1_0 {
 		run.MetaOK = run.MetaOK && len(meta.ID) == 2 && bytes.Equal(meta.ID[0], id[0]) && bytes.Equal(meta.ID[1], id[1])
+	}
+	if run.Meta != nil {
+		run.MetaDiff = run.Meta.diff(meta, version)
+		run.MetaOK = run.MetaDiff == ""
 	}
 	// probe every number the program or the writer can have used, both generations
 	maxNum := 0
